@@ -24,12 +24,20 @@ _CMP = {
     ast.Gt: operator.gt, ast.GtE: operator.ge, ast.Is: operator.is_, ast.IsNot: operator.is_not,
     ast.In: lambda a, b: a in b, ast.NotIn: lambda a, b: a not in b,
 }
+def _isinstance(v, t):
+    ts = t if isinstance(t, tuple) else (t,)
+    if not all(isinstance(x, type) for x in ts):
+        raise AnalysisError("constfold: isinstance against a non-builtin type")
+    return isinstance(v, ts)
+
+
 _BUILTINS = {
     "list": list, "tuple": tuple, "dict": dict, "set": set, "frozenset": frozenset, "len": len,
     "range": range, "str": str, "int": int, "float": float, "bool": bool, "sorted": sorted,
     "zip": zip, "enumerate": enumerate, "min": min, "max": max, "sum": sum, "abs": abs,
     "any": any, "all": all, "reversed": reversed, "chr": chr, "ord": ord, "round": round,
-    "True": True, "False": False, "None": None, "isinstance": None,
+    "True": True, "False": False, "None": None, "isinstance": _isinstance, "repr": repr,
+    "divmod": divmod, "pow": pow,
 }
 _SAFE_METHODS = {
     str: {"join", "lower", "upper", "strip", "lstrip", "rstrip", "split", "replace", "startswith",
@@ -111,6 +119,34 @@ class Inst:
                f"{', '.join(f'{k}={v!r}' for k, v in self.kwargs.items())})"
 
 
+class Stub:
+    """A stand-in object handed to a folded function by a rule (e.g. a regex match with
+    given groups, a tag with given attributes): named attributes and pure methods."""
+
+    def __init__(self, name, attrs=None, methods=None):
+        self.name = name
+        self.attrs = dict(attrs or {})
+        self.methods = dict(methods or {})
+
+    def __repr__(self):
+        return f"<stub {self.name}>"
+
+    def __bool__(self):
+        return True
+
+    @classmethod
+    def match(cls, groups):
+        """match-object stub: groups is {name or 1-based index: text or None}"""
+        def group(*keys):
+            if not keys:
+                keys = (0,)
+            vals = tuple(groups[k] for k in keys)
+            return vals[0] if len(vals) == 1 else vals
+        ordered = [groups[k] for k in sorted(k for k in groups if isinstance(k, int) and k > 0)]
+        return cls("match", {}, {"group": group, "groups": lambda: tuple(ordered),
+                                 "groupdict": lambda: {k: v for k, v in groups.items() if isinstance(k, str)}})
+
+
 class FuncRef:
     def __init__(self, fn):
         self.fn = fn
@@ -119,6 +155,10 @@ class FuncRef:
 class ClassRef:
     def __init__(self, cls):
         self.cls = cls
+
+
+class FoldRaise(AnalysisError):
+    """the folded code executed a `raise` statement"""
 
 
 class _Return(Exception):
@@ -245,6 +285,8 @@ class Folder:
                 self._exec_block(st.body, e)
         elif isinstance(st, ast.Pass):
             pass
+        elif isinstance(st, ast.Raise):
+            raise FoldRaise(f"raise {ast.unparse(st.exc)[:60] if st.exc is not None else ''}")
         else:
             raise AnalysisError(f"constfold: unsupported statement {type(st).__name__}")
 
@@ -411,6 +453,10 @@ class Folder:
             if b is not None and b.kind == "external":
                 return ("external", f"{b.target}.{x.attr}")
         obj = self._eval(base, e)
+        if isinstance(obj, Stub):
+            if x.attr in obj.attrs:
+                return obj.attrs[x.attr]
+            raise AnalysisError(f"constfold: attribute {x.attr} of {obj!r}")
         if isinstance(obj, EnumClass):
             m = obj.by_name(x.attr)
             if m is None:
@@ -461,6 +507,12 @@ class Folder:
                     tgt = self.value(b.target, f.attr)
                     return self._apply(tgt, x, e)
             obj = self._eval(f.value, e)
+            if isinstance(obj, Stub):
+                if f.attr in obj.methods:
+                    args = self._elts(x.args, e)
+                    kw = {k.arg: self._eval(k.value, e) for k in x.keywords}
+                    return obj.methods[f.attr](*args, **kw)
+                raise AnalysisError(f"constfold: method {f.attr} of {obj!r}")
             if isinstance(obj, (ClassRef, EnumClass, Inst)):
                 tgt = self._attr(f, e)
                 return self._apply(tgt, x, e)
@@ -495,6 +547,15 @@ class Folder:
         kw = {k.arg: self._eval(k.value, e) for k in x.keywords}
         if dotted == "re.compile":
             return RegexConst(args[0], args[1] if len(args) > 1 else kw.get("flags", 0))
+        if dotted in ("xml.sax.saxutils.escape", "xml.sax.saxutils.unescape", "xml.sax.saxutils.quoteattr",
+                      "html.escape", "html.unescape"):
+            import importlib
+            mod_, _, fn_ = dotted.rpartition(".")
+            return getattr(importlib.import_module(mod_), fn_)(*args, **kw)   # stdlib, pure
+        if dotted in ("fractions.Fraction", "decimal.Decimal", "math.floor", "math.ceil"):
+            import importlib
+            mod_, _, fn_ = dotted.rpartition(".")
+            return getattr(importlib.import_module(mod_), fn_)(*args, **kw)   # stdlib, pure
         if dotted == "itertools.product":
             return list(itertools.product(*args, **kw))
         if dotted == "os.getenv" or dotted == "os.environ.get":
@@ -532,6 +593,9 @@ class Folder:
 
     def call_function(self, fn, args, kw=None, self_value=None):
         kw = kw or {}
+        stub = getattr(self, "stubs", {}).get(fn.key)
+        if stub is not None:
+            return stub(*args, **kw)
         local = {}
         params = list(fn.params)
         if fn.cls is not None and fn.kind == "method":
